@@ -475,6 +475,17 @@ def it_struct(c):
         l = LAYOUT[t]
         comps = l[1] if l[0] == 'struct' else [(i, l[1]) for i in range(l[2])]
         drivers = [I(_width(sub), 'c%d' % i) for i, (name, sub) in enumerate(comps)]
+        if mode in ('ints', 'mixed'):
+            # components given as Python ints (negative ones are two's complement at the component's width); 'mixed': every
+            # other component stays a wire
+            pick = c.get('vi', 0)
+            consts = {}
+            for i, (name, sub) in enumerate(comps):
+                w_ = _width(sub)
+                choices = [-1, 1, -(1 << (w_ - 1)), (1 << w_) - 1, 0] if w_ > 1 else [-1, 1, 0, 1, 0]
+                if mode == 'ints' or i % 2 == pick % 2:
+                    consts[i] = choices[(pick + i) % len(choices)]
+            drivers = [consts.get(i, d) for i, d in enumerate(drivers)]
         if is_matrix:
             obj = cls(values=drivers)
         else:
@@ -483,7 +494,9 @@ def it_struct(c):
         def whole(ins):
             v = 0
             for i, (name, sub) in enumerate(comps):
-                v = (v << _width(sub)) | ins['c%d' % i]
+                d_ = drivers[i]
+                cv = (d_ & ((1 << _width(sub)) - 1)) if isinstance(d_, int) else ins['c%d' % i]
+                v = (v << _width(sub)) | cv
             return v
     outs = {'whole': pyrtl.as_wires(obj)}
     widths = {'whole': W}
@@ -599,6 +612,9 @@ def cases(tier, seed):
     for t in LAYOUT:
         for mode in ('whole', 'parts'):
             out.append({'item': 'struct', 'schema': t, 'mode': mode})
+        for vi in range(5):
+            out.append({'item': 'struct', 'schema': t, 'mode': 'ints', 'vi': vi})
+            out.append({'item': 'struct', 'schema': t, 'mode': 'mixed', 'vi': vi})
     return out
 
 
